@@ -54,7 +54,25 @@ func (e *Exec) invoke(st *State, fr *Frame, cc *ssa.CallCommon, fv *Value, args 
 		if !e.mayPanic(st, fr, Eq(fv.One(), NilLoc), "nil-func-call", si, nil) {
 			return
 		}
-		e.unknownCall(st, fr, "dynamic func value in "+fnName(fr.fn), cc.Signature(), args, k)
+		// a function value supplied by the environment: its effects are the
+		// caller's, not the library's; modelled as opaque (result arbitrary,
+		// may panic, writes nothing the library owns)
+		e.Note("assumed: function values supplied by the environment (called in %s) do not write memory owned by the library and do not mutate the environment during a run", fnName(fr.fn))
+		var as []*Term
+		for _, a := range args {
+			as = append(as, a.L...)
+		}
+		if fr.mode == "panics" {
+			if !e.mayPanic(st, fr, Fresh("envfn_panics", SBool), "env-func-panic", si, nil) {
+				return
+			}
+		}
+		var res []*Value
+		sig := cc.Signature()
+		for i := 0; i < sig.Results().Len(); i++ {
+			res = append(res, e.havocValue(st, sig.Results().At(i).Type(), "envret"))
+		}
+		k(st, res)
 		return
 	}
 	if e.CallHook != nil && e.CallHook(e, st, fr, cc, callee, args, k) {
@@ -63,7 +81,7 @@ func (e *Exec) invoke(st *State, fr *Frame, cc *ssa.CallCommon, fv *Value, args 
 	if lib := libCall(e, st, fr, callee, args, k); lib {
 		return
 	}
-	if ct := e.W.Contracts[shortName(callee)]; ct != nil && !ct.Inline && len(ct.Ensures)+len(ct.Requires) > 0 && fr.depth >= 0 && !e.W.forceInline[shortName(callee)] {
+	if ct := e.W.Contracts[shortName(callee)]; ct != nil && !ct.Inline && (len(ct.Ensures)+len(ct.Requires) > 0 || ct.Pure || ct.MayPanic) && !e.W.forceInline[shortName(callee)] {
 		e.callByContract(st, fr, callee, ct, args, k)
 		return
 	}
@@ -189,7 +207,7 @@ func (e *Exec) builtin(st *State, fr *Frame, cc *ssa.CallCommon, bi *ssa.Builtin
 		if len(kk.L) == 1 {
 			ks := kk.L[0].Sort
 			has := st.MapHas(ks)
-			st.mem["MH:"+ks] = Store(has, m, Store(Select(has, m), kk.L[0], False))
+			st.mem["MH:"+ks] = Store(has, m, Store(st.Sel(has, m), kk.L[0], False))
 		}
 		k(st, nil)
 	case "close":
@@ -260,6 +278,7 @@ func (e *Exec) appendBuiltin(st *State, fr *Frame, cc *ssa.CallCommon, args []*V
 	nc := Fresh("cap", SBV(64))
 	st.Assume(BVCmp("bvsge", nc, nl))
 	st.Assume(BVCmp("bvslt", nl, BV64(1<<47)))
+	st.Assume(BVCmp("bvslt", nc, BV64(1<<47)))
 	k(st, []*Value{{T: s.T, L: []*Term{np, nl, nc}}})
 }
 
@@ -271,6 +290,20 @@ func (e *Exec) callByContract(st *State, fr *Frame, callee *ssa.Function, ct *Co
 	for _, r := range ct.Requires {
 		g := e.evalBool(r.Expr, env)
 		e.Assert(site+"["+r.Label+"]", "call-pre", fr.fn.String(), st, g, r.Expr)
+	}
+	e.usedContracts[shortName(callee)] = true
+	if ct.MayPanic {
+		var as []*Term
+		for _, a := range args {
+			as = append(as, a.L...)
+		}
+		pc := UF("panics_"+sanitize(shortName(callee)), SBool, as...)
+		if len(as) == 0 {
+			pc = Fresh("panics_"+sanitize(shortName(callee)), SBool)
+		}
+		if !e.mayPanic(st, fr, pc, "callee-panic:"+shortName(callee), nil, nil) {
+			return
+		}
 	}
 	pre := st.Clone()
 	// frame: havoc what the callee may assign
@@ -315,8 +348,8 @@ func (e *Exec) applyAssigns(st *State, ct *Contract, env *SpecEnv) {
 		}
 	}
 	water0 := st.water
-	st.water = Fresh("W", SInt)
-	st.Assume(IntCmp(">=", st.water, water0))
+	st.water = FreshWater("W")
+	st.pc = append(st.pc, App(">=", SBool, st.water, water0))
 	for key, old := range st.mem {
 		nw := Fresh("Mc_"+sortKey(key), old.Sort)
 		l := BoundVar(fmt.Sprintf("fl%d", freshSeqNext()), SLoc)
@@ -325,7 +358,7 @@ func (e *Exec) applyAssigns(st *State, ct *Contract, env *SpecEnv) {
 			same = append(same, Not(Eq(LObj(l), o)))
 		}
 		same = append(same, IntCmp("<=", LObj(l), water0))
-		st.Assume(Forall([]*Term{l}, Implies(And(same...), Eq(Select(nw, l), Select(old, l)))))
+		st.AddQFact(nw, &qfact{v: l, guard: And(same...), lhs: Select(nw, l), rhs: Select(old, l)})
 		st.mem[key] = nw
 	}
 }
